@@ -231,8 +231,9 @@ func unconv(e ast.Expr) ast.Expr {
 	}
 }
 
-func c12Expect(c *cx) {
-	id := "C12.2"
+func c12Expect(c *cx) { c12ExpectAs(c, "C12.2") }
+
+func c12ExpectAs(c *cx, id string) {
 	f := c.fn(id, "internal/stream", "Expect")
 	if f == nil {
 		return
